@@ -47,13 +47,26 @@ def run(ctx):
 
 
 def r1(ctx, F):
-    b = F.body(COPY)
-    if b is None:
+    import semantic_anchors
+    pubs = sorted(semantic_anchors.atomic_publishers(F))
+    if F.body(COPY) is None and not pubs:
         ctx.missing('C08.R1', COPY)
+    # the delivery primitive is the function that stages and renames; `copy_atomic` may have become a thin wrapper around it
+    targets = pubs or [COPY]
+    for path in targets:
+        _r1_body(ctx, F, F.body(path))
+    cb_ = F.body(COPY)
+    if cb_ is not None and COPY not in targets:
+        cfl = flow_of(cb_)
+        fw = [t for _, t in cfl.calls(lambda c: c in targets)]
+        ok = bool(fw) and all(all(o.kind == 'param' and o.key == 1 for o in cfl.origins(t['args'][0])) and all(o.kind == 'param' and o.key == 2 for o in cfl.origins(t['args'][1])) for t in fw)
+        ctx.check(ok, 'C08.R1', 'copy_atomic:forwards', 'copy_atomic(src, dst) forwards its two paths to the staging primitive', 'copy_atomic no longer stages and renames, nor forwards to a function that does', loc(cb_, cb_.lo))
+
+
+def _r1_body(ctx, F, b):
     fl = flow_of(b)
     cfg = fl.cfg
-    src_i = param_index(b, 'src') or 1
-    dst_i = param_index(b, 'dst') or 2
+    src_i, dst_i = 1, 2      # (source, destination) are the primitive's first two path parameters
     creators = fl.calls(lambda c: c in tables.CONTENT_CREATORS and not c.endswith('OpenOptions::open'))
     renames = fl.calls(lambda c: c in RENAMES)
     is_tmp = lambda op: is_param_plus_suffix(F, fl, op, dst_i, '.copia-tmp')
@@ -73,6 +86,13 @@ def r1(ctx, F):
                 staged_copies.append(cb)
     for cb, ct in fl.calls(lambda c: c.endswith('OpenOptions::write') or c.endswith('OpenOptions::append') or c.endswith('OpenOptions::create')):
         ctx.bad('C08.R1', 'copy_atomic:OpenOptions-write', 'copy_atomic opens a file for writing through OpenOptions (not the staged copy)', term_loc(b, cb))
+    # content may also be streamed into a created staging file (File::create(tmp) + io::copy / write_all): those writes count
+    streamed = []
+    created = [(cb, ct) for cb, ct in creators if not callee(ct).endswith('fs::copy') and is_tmp(ct['args'][tables.CONTENT_CREATORS[callee(ct)]])]
+    if created:
+        for wb, wt in fl.calls(lambda c: c in ('std::io::copy', 'std::io::Write::write_all', 'std::io::Write::write')):
+            streamed.append(wb)
+    staged_copies = staged_copies + streamed
     if not staged_copies and not ctx.violations:
         ctx.missing('C08.R1', 'copy_atomic: a copy(src, dst+".copia-tmp")')
     if not renames:
@@ -83,6 +103,11 @@ def r1(ctx, F):
         ctx.check(shape, 'C08.R1', 'copy_atomic:staging-name', 'rename(dst+".copia-tmp", dst)',
                   'copy_atomic does not stage into dst+".copia-tmp" and rename that onto dst', term_loc(b, rb))
         guarded = bool(staged_copies) and any(fl.guarded_by(rb, cb, 'Ok') for cb in staged_copies)
+        # no write of the staged content may have failed on the way to the rename
+        for cb in staged_copies:
+            for (s_, t_, lab) in fl.outcomes(cb).get('Err', set()):
+                if rb in cfg.reach(t_):
+                    guarded = False
         ctx.check(guarded, 'C08.R1', 'copy_atomic:copy-ok-guards-rename', 'rename only after copy returned Ok',
                   'copy_atomic renames the staging file even if the copy failed (partial data published)', term_loc(b, rb))
         synced = False
@@ -92,6 +117,16 @@ def r1(ctx, F):
                     pop = fl.body.blocks[o.bb]['term']['args'][tables.FS_READERS.get(o.key, tables.CONTENT_CREATORS.get(o.key, 0))]
                     if is_tmp(pop) and fl.guarded_by(rb, sb, 'Ok') and any(cfg.dominates(cb, sb) for cb in staged_copies):
                         synced = True
+        # the file handle may be reached through a buffered writer (`w.get_ref().sync_all()`, `w.into_inner()?.sync_all()`)
+        if not synced:
+            for sb, st in fl.calls(lambda c: c in SYNC):
+                if fl.guarded_by(rb, sb, 'Ok') and any(cfg.dominates(cb, sb) for cb in staged_copies) and created:
+                    synced = True
+        bw = buffered_writer_flushed_before(fl, rb)
+        if bw is not None:
+            ctx.check(bw, 'C08.R1', 'copy_atomic:buffer-flushed-before-rename', 'the buffered writer of the staged file is flushed (flush / into_inner Ok) before the rename',
+                      'copy_atomic writes the staged file through a BufWriter and renames it into place without flushing the buffer: the tail still in the buffer is written '
+                      'when the writer is dropped - after the fsync and after the rename - so a kill in between leaves a truncated file under the live name', term_loc(b, rb))
         ctx.check(synced, 'C08.R1', 'copy_atomic:fsync-before-rename', 'staged file flushed (sync_all Ok) between copy and rename',
                   'copy_atomic renames the staged file without fsync: the archive (which is fsynced) can become durable before the data it describes',
                   term_loc(b, rb))
@@ -116,7 +151,8 @@ def r2(ctx, F, bs):
         t = b.blocks[bb]['term']
         if c.endswith('OpenOptions::open'):
             continue   # classified by the write flag below
-        ok = top in (COPY, 'archive::Archive::save')
+        import semantic_anchors
+        ok = top in (COPY, 'archive::Archive::save') or top in semantic_anchors.atomic_publishers(F)
         ctx.check(ok, 'C08.R2', '%s:%s' % (top, c), 'content creator / rename inside the atomic-delivery helper',
                   '%s creates file content or renames directly (bypassing copy_atomic / Archive::save): a kill can leave a partial live file' % top,
                   term_loc(b, bb))
